@@ -320,14 +320,33 @@ static void c05_case(uint64_t idx)
 	vbuf data = {0}, plain = {0};
 	char desc[400];
 	int fmt; bool has_check = true, multi = false;
-	unsigned k = vrng_below(&r, 10);
+	unsigned k = vrng_below(&r, 14);
 	synth_info info; memset(&info, 0, sizeof(info));
 	synth_opts so = { .max_plain = 600, .flags = SYNTH_ONLY_SUPPORTED | SYNTH_NO_TRAILING, .max_dict = 1u << 16, .max_blocks = 3, .max_streams = 3, .max_members = 3 };
 	gstream g; bool g_valid = false;
 	for (int attempt = 0; attempt < 20; ++attempt) {
 		vbuf_clear(&data); vbuf_clear(&plain);
 		if (g_valid) { gstream_free(&g); g_valid = false; }
-		if (k < 3) { fmt = F_XZ; synth_xz(&r, &so, &data, &plain, &info); multi = info.nstreams > 1 || info.stream_padding > 0; has_check = !(info.check_mask & 1); snprintf(desc, sizeof(desc), "synth:%s", info.desc); }
+		if (k >= 10) {
+			// incompressible plaintext (the encoder stores it: a flip of payload bit i is a flip of plaintext bit i), every
+			// check type, lengths at every residue that matters to a block-oriented check (SHA-256: 64-byte blocks,
+			// length padding from 56): the integrity check must cover every byte up to the last
+			static const unsigned res[] = { 0, 1, 31, 32, 54, 55, 56, 57, 60, 62, 63 };
+			static const lzma_check cks[] = { LZMA_CHECK_CRC32, LZMA_CHECK_CRC64, LZMA_CHECK_SHA256, LZMA_CHECK_SHA256 };
+			size_t n = 64 * (size_t)vrng_below(&r, A.thorough ? 200 : 24) + res[vrng_below(&r, 11)];
+			lzma_check ck = cks[vrng_below(&r, 4)];
+			fmt = F_XZ; multi = false; has_check = true;
+			vbuf_reserve(&plain, n + 1); vrng_fill(&r, plain.p, n); plain.n = n;
+			lzma_options_lzma o; lzma_lzma_preset(&o, 0);
+			lzma_filter f[2] = { { LZMA_FILTER_LZMA2, &o }, { LZMA_VLI_UNKNOWN, NULL } };
+			size_t bound = lzma_stream_buffer_bound(n), pos = 0;
+			vbuf_reserve(&data, bound + 1);
+			if (lzma_stream_buffer_encode(f, ck, NULL, plain.p, n, data.p, &pos, bound) != LZMA_OK) pos = 0;
+			data.n = pos;
+			snprintf(desc, sizeof(desc), "stored:xz[%zu random bytes (%zu mod 64), check=%d]", n, n % 64, (int)ck);
+			hx_count("base_stored_payload", 1);
+		}
+		else if (k < 3) { fmt = F_XZ; synth_xz(&r, &so, &data, &plain, &info); multi = info.nstreams > 1 || info.stream_padding > 0; has_check = !(info.check_mask & 1); snprintf(desc, sizeof(desc), "synth:%s", info.desc); }
 		else if (k < 6) {
 			fmt = F_XZ; unsigned ns = 1 + vrng_below(&r, 3), nb = 1 + vrng_below(&r, 3);
 			gen_xz_multi(&r, &g, ns, nb, 700, vrng_chance(&r, 1, 3), true); g_valid = true;
@@ -349,6 +368,29 @@ static void c05_case(uint64_t idx)
 	if (R0.status != RD_OK || R0.out_len != plain.n || R0.relaxation_zone) {
 		// base file must be valid for both referees; otherwise skip (counted)
 		hx_count("base_files_skipped", 1);
+		if (k >= 10 && data.n) {
+			// liblzma's own output that the reference decoder does not accept (C02's subject). The statement of C05
+			// does not depend on a referee: if liblzma decodes it to the plaintext, no bit flip may give success with
+			// other data.
+			dec_spec sp; memset(&sp, 0, sizeof(sp)); sp.kind = D_STREAM; sp.memlimit = UINT64_MAX;
+			lres L0; run_lib(&sp, data.p, data.n, LZMA_FINISH, &L0);
+			bool base_ok = lib_accepts(&L0) && L0.out.n == plain.n && (plain.n == 0 || memcmp(L0.out.p, plain.p, plain.n) == 0);
+			lres_free(&L0);
+			if (base_ok) {
+				hx_count("base_files_without_referee", 1);
+				uint8_t *dd = malloc(data.n);
+				for (size_t off = 0; off < data.n; ++off) for (unsigned bit = 0; bit < 8; ++bit) {
+					memcpy(dd, data.p, data.n); dd[off] ^= (uint8_t)(1u << bit);
+					lres L; run_lib(&sp, dd, data.n, LZMA_FINISH, &L); hx_eval();
+					if (lib_accepts(&L) && (L.out.n != plain.n || (plain.n && memcmp(L.out.p, plain.p, plain.n)))) {
+						hx_violation("C05", "damage-reported-as-success|stream|bit-flip", idx, "bit %u of byte %zu flipped: LZMA_STREAM_END with output that differs from the original; base %s", bit, off, desc);
+						lres_free(&L); break;
+					}
+					lres_free(&L);
+				}
+				free(dd);
+			}
+		}
 		goto out;
 	}
 	c05_ctx c = { .fmt = fmt, .has_check = has_check, .multi = multi, .plain = plain.p, .plain_n = plain.n, .R0 = &R0, .desc = desc, .idx = idx, .orig_n = data.n, .orig = data.p };
